@@ -263,5 +263,98 @@ class EnclosingPart(Part):
         return res
 
 
+class DoubleMatch(Part):
+    name = "two_matches_of_one_pattern"
+    desc = "two instances of forms matched by the same pattern on one line: both contexts kept, both formats kept"
+
+    def __init__(self, tier, seed):
+        self.tier, self.seed = tier, seed
+
+    def groups(self):
+        by = {}
+        for f in secdom.catalogue():
+            if f["scrub"] or f["slots"] != 1 or "{S32}" in f["template"] or f["regex_index"] is None:
+                continue
+            t = f["template"]
+            if (" w " in " " + t.split("{S}")[0] or '"{S}"' in t or "[^;]" in f["regex"]
+                    or re.search(r"\(\\S[+*] \)[*+]|\( \\S[+*]\)[*+]|\.\*", f["regex"])):
+                continue   # unbounded filler before the secret: a second instance is swallowed by the first
+            if t.split("{S}")[1].strip():
+                continue
+            by.setdefault((f["group"], f["regex_index"]), []).append(f)
+        return by
+
+    def cases(self):
+        return [{"group": list(k)} for k in sorted(self.groups())]
+
+    def run(self, case):
+        res = Res()
+        forms = self.groups()[tuple(case["group"])]
+        sa, sb = "Xk3#vT9q", refs.type7_encode("Zq", 9)
+        sc = "$1$abcd$" + secdom._crypt_tail(22, 4)
+        lines, meta = [], []
+        for f1 in forms:
+            for f2 in forms:
+                for s1, s2 in ((sa, sb), (sb, sa), (sc, sa), (sa, sa)):
+                    for kind in ("semi", "json"):
+                        a = secdom.fill(f1["template"], ["\x00"])
+                        b = secdom.fill(f2["template"], ["\x01"])
+                        if kind == "semi":
+                            ln = a + " ; " + b
+                        else:
+                            ln = '{"a": "' + a + '", "b": "' + b + '"}'
+                        toks = ln.split()
+                        i1 = [i for i, t in enumerate(toks) if "\x00" in t][0]
+                        i2 = [i for i, t in enumerate(toks) if "\x01" in t][0]
+                        p1, q1 = toks[i1].split("\x00")
+                        p2, q2 = toks[i2].split("\x01")
+                        lines.append(ln.replace("\x00", s1).replace("\x01", s2))
+                        meta.append(((s1, p1, q1, i1), (s2, p2, q2, i2), f1["id"] + "+" + f2["id"], f1 is f2))
+        if "only" in case:
+            keep = [k for k, ln in enumerate(lines) if ln == case["only"]]
+            lines, meta = [lines[k] for k in keep], [meta[k] for k in keep]
+        got, _ = secdom.run_lines_isolated(lines, "saltForTest")
+        for ln, g, (m1, m2, tag, same_form) in zip(lines, got, meta):
+            res.evals += 1
+            rc = {"group": case["group"], "only": ln}
+            if isinstance(g, tuple):
+                res.violation("exception:%s|two-matches" % g[1], "line %r raised %r" % (ln, g), rc)
+                continue
+            it, ot = ln.split(), g.split()
+            if len(it) != len(ot):
+                res.violation("context-not-kept|two-matches", "line %r -> %r" % (ln, g), rc)
+                continue
+            bad = [j for j in range(len(it)) if j not in (m1[3], m2[3]) and it[j] != ot[j]]
+            if bad:
+                res.violation("context-not-kept|two-matches",
+                              "line %r -> %r (token %d %r became %r)" % (ln, g, bad[0], it[bad[0]], ot[bad[0]]), rc)
+                continue
+            ok = True
+            for sec, head, tail, idx in (m1, m2):
+                tok = ot[idx]
+                if not (tok.startswith(head) and tok.endswith(tail)):
+                    res.violation("enclosing-text-not-kept|two-matches", "line %r -> %r" % (ln, g), rc)
+                    ok = False
+                    break
+                new = tok[len(head): len(tok) - len(tail)] if tail else tok[len(head):]
+                why = complies(classify(sec), sec, new)
+                if why == "unchanged" and not same_form:
+                    # two different forms on one line may be claimed by different pattern groups, of
+                    # which only the first is applied (one secret per line is the documented scope)
+                    res.count("second_form_left_to_another_group")
+                    continue
+                if why:
+                    res.violation("format-not-kept:%s|two-matches" % why.split(" (")[0][:40],
+                                  "line %r -> %r: %r of a %s secret: %s" % (ln, g, new, classify(sec), why), rc)
+                    ok = False
+                    break
+            if ok:
+                res.nt((tag, ln))
+            res.out(g)
+        if "only" not in case:
+            res.samples.append({"group": case["group"], "lines": len(lines), "example": lines[:1]})
+        return res
+
+
 def parts(tier, seed):
-    return [FormatPart(tier, seed), EnclosingPart(tier, seed)]
+    return [FormatPart(tier, seed), EnclosingPart(tier, seed), DoubleMatch(tier, seed)]
